@@ -31,6 +31,7 @@ def run(tier):
         sets.append(["rand", "@OUT", variant, 3, 4, 300 if quick else 6000, vlib.SEED * 10 + k])
         sets.append(["rand", "@OUT", variant, 4, 4, 100 if quick else 2000, vlib.SEED * 10 + k + 5])
     sets.append(["wrap", "@OUT", 200 if quick else 5000, vlib.SEED])
+    sets.append(["signed", "@OUT", 300 if quick else 6000, vlib.SEED + 3])
     traces = c.drive(exes["drv_pr"], sets, tag="sched", timeout=2400)
     # 3. free-running stress under ThreadSanitizer
     fsh = 2 if quick else 8
@@ -41,7 +42,7 @@ def run(tier):
     c.exhaustive = True
     c.rule = ("every schedule (DFS over the scheduler's decisions at each atomic operation) of 2 threads over ranges "
               "<=3 (blocks/multi <=2 quick, <=4 thorough) for every TrueSet, 3 threads over ranges <=2 (thorough), "
-              "random schedules for 3-4 threads, uint8_t ranges ending at 254/255, free runs under TSan with 1..16 "
+              "random schedules for 3-4 threads, uint8_t ranges ending at 254/255, int64_t / int8_t ranges below and across zero and at the int8_t extremes, free runs under TSan with 1..16 "
               "threads; distinct = (variant, range length, block, |TrueSet|[, schedule length class]) classes")
     c.assumptions = ["std::atomic operations are sequentially consistent single steps (validated by TSan free runs)",
                      "compare_exchange_weak does not fail spuriously in the shim (a spurious failure only retries)"]
